@@ -1,0 +1,36 @@
+// SPDX-License-Identifier: (Apache-2.0 OR MIT)
+
+//! Instrumentation used only by the external verification harness.
+//! Compiled in only with `RUSTFLAGS="--cfg rbpf_verif"`; never part of a normal build.
+
+use core::sync::atomic::{AtomicU64, Ordering};
+
+/// Number of instructions the interpreter may still execute before it returns an
+/// "instruction budget exhausted" error. `u64::MAX` means unlimited.
+pub static INSN_BUDGET: AtomicU64 = AtomicU64::new(u64::MAX);
+
+/// Address of the first byte of the eBPF stack of the most recent interpreter run.
+pub static LAST_STACK_BASE: AtomicU64 = AtomicU64::new(0);
+
+/// Set the instruction budget for subsequent interpreter runs.
+pub fn set_insn_budget(n: u64) {
+    INSN_BUDGET.store(n, Ordering::Relaxed);
+}
+
+/// Stack base address recorded by the most recent interpreter run.
+pub fn last_stack_base() -> u64 {
+    LAST_STACK_BASE.load(Ordering::Relaxed)
+}
+
+/// Consume one unit of budget; `false` when exhausted.
+pub(crate) fn tick() -> bool {
+    let b = INSN_BUDGET.load(Ordering::Relaxed);
+    if b == u64::MAX {
+        return true;
+    }
+    if b == 0 {
+        return false;
+    }
+    INSN_BUDGET.store(b - 1, Ordering::Relaxed);
+    true
+}
